@@ -18,12 +18,14 @@ struct SqTimeMap
 };
 
 // p_j = xi_j for j < dof(index);  p_j = sum_k M(j,k) xi_k + gain (index+1) for j >= dof(index);  M(j,k) = ((j + 2k) mod 3 - 1) / 2
-// dof(index) = max(1, DIM - 1 - index mod 2)  (fewer unconstrained than physical coordinates whenever DIM >= 2)
+// dof(index) = 1 if index == pin, else max(1, DIM - 1 - index mod 2)  (fewer unconstrained than physical coordinates whenever DIM >= 2);
+// pin = -1 (none) for the default-constructed map: two user maps can differ in the dof of a single point
 template <int DIM>
 struct LiftMap
 {
     double gain = 0.25;
-    static int dofOf(int index) { return std::max(1, DIM - 1 - (index % 2)); }
+    int pin = -1;
+    int dofOf(int index) const { return index == pin ? 1 : std::max(1, DIM - 1 - (index % 2)); }
     static double M(int j, int k) { return (double)(((j + 2 * k) % 3) - 1) * 0.5; }
     int getUnconstrainedDim(int index) const { return dofOf(index); }
     Eigen::VectorXd toPhysical(const Eigen::VectorXd &xi, int index) const
@@ -255,6 +257,7 @@ struct Registry
     std::map<long, std::shared_ptr<SqTimeMap>> tmaps;
     // a user spatial map id stands for one LiftMap<DIM> per dimension that uses it (created on first use, all sharing the gain)
     std::map<long, double> smap_gain;
+    std::map<long, int> smap_pin;
     std::map<std::pair<long, int>, std::shared_ptr<void>> smaps;
     std::map<std::pair<long, int>, std::function<void(double)>> smap_setters;
     std::map<long, std::shared_ptr<void>> wss;       // OBox::Workspace, typed by the optimizer family that created it
